@@ -22,13 +22,24 @@ typedef void* verif_ptr_t;
 #ifdef VERIF_CBMC
 /* typed operator new: when the element count is not a symex constant, case-split over 0..VERIF_NEW_CAPN elements so that every
  * heap object has a CONCRETE size (symbolic-size objects make the array encoding explode); larger requests fail an assertion. */
-#define VERIF_DEF_NEW(T, tag) \
+#define VERIF_DEF_NEWC(T, tag) \
+static uint8_t* verif_newc_##tag(uint64_t size) { uint8_t* p = (uint8_t*)malloc(sizeof(T) * (size / sizeof(T) ? size / sizeof(T) : 1)); __CPROVER_assume(p != 0); verif_live_blocks++; return p; }
+#ifdef VERIF_NEW_MAX
+/* cheaper, less exact mode (selected per query): a request whose size is not a constant of the IR gets ONE block of VERIF_NEW_CAPN
+ * elements (a larger request fails an assertion); accesses between the requested size and the cap are then not flagged by cbmc */
+#define VERIF_DEF_NEW(T, tag) VERIF_DEF_NEWC(T, tag) \
+static uint8_t* verif_new_##tag(uint64_t size) { uint64_t n = size / sizeof(T); \
+  __CPROVER_assert(n <= VERIF_NEW_CAPN, "ENCODING-BOUND: allocation larger than VERIF_NEW_CAPN elements"); __CPROVER_assume(n <= VERIF_NEW_CAPN); \
+  uint8_t* p = (uint8_t*)malloc(sizeof(T) * VERIF_NEW_CAPN); __CPROVER_assume(p != 0); verif_live_blocks++; return p; }
+#else
+#define VERIF_DEF_NEW(T, tag) VERIF_DEF_NEWC(T, tag) \
 static uint8_t* verif_new_##tag(uint64_t size) { uint64_t n = size / sizeof(T); uint8_t* p = 0; int done = 0; \
   for (uint64_t k = 0; k <= VERIF_NEW_CAPN; k++) if (!done && n == k) { p = (uint8_t*)malloc(sizeof(T) * (k ? k : 1)); done = 1; } \
   __CPROVER_assert(done, "ENCODING-BOUND: allocation larger than VERIF_NEW_CAPN elements"); __CPROVER_assume(done); \
   __CPROVER_assume(p != 0); verif_live_blocks++; return p; }
+#endif
 #else
-#define VERIF_DEF_NEW(T, tag) static uint8_t* verif_new_##tag(uint64_t size) { return _Znwm(size); }
+#define VERIF_DEF_NEW(T, tag) static uint8_t* verif_new_##tag(uint64_t size) { return _Znwm(size); } static uint8_t* verif_newc_##tag(uint64_t size) { return _Znwm(size); }
 #endif
 
 #define VERIF_DEF_MEM(T, tag) \
